@@ -1,4 +1,5 @@
 import HapModel.Model.Clump
+import HapModel.Model.Overlap
 /-!
 # C17 — clump output is exactly greedy LD clumping and always terminates
 
@@ -60,5 +61,16 @@ example : (clump 100 50 100 1000 (fun _ _ => false)
   rw [clumpLoop]; simp [clumpStep, nextIndex, scanStep, window]
   rw [clumpLoop]; simp [clumpStep, nextIndex, scanStep, window]
   rw [clumpLoop]; simp [clumpStep, nextIndex, scanStep, window]
+
+/-- **mixed SNP + STR input: exactly the common samples, rows aligned** – the two-pointer walk of
+    `GetOverlappingSamples` over the two name-sorted sample lists returns the pair of rows `(i, j)` iff SNP row `i` and
+    STR row `j` carry the same sample name (distinct names within each file) -/
+theorem overlapping_samples_exact (a b : List Overlap.E) (ha : Overlap.Sorted a) (hb : Overlap.Sorted b) (i j : Nat) :
+    (i, j) ∈ Overlap.walk a b ↔ ∃ k, (k, i) ∈ a ∧ (k, j) ∈ b :=
+  Overlap.walk_spec a b ha hb i j
+
+/-- non-vacuity: names ranked 1,4,7 in rows 2,0,1 of the SNP file; 4,5,7 in rows 0,1,2 of the STR file -/
+example : Overlap.walk [(1, 2), (4, 0), (7, 1)] [(4, 0), (5, 1), (7, 2)] = [(0, 0), (1, 2)] := by
+  simp [Overlap.walk]
 
 end C17
